@@ -161,6 +161,20 @@ pub fn escape_program(kinds: &[usize], target: usize, gosub: bool) -> Prog {
             }
         }
         let s = match kinds[d] {
+            // blocks without a counter: IF, ELSE, CASE, CASE ELSE
+            4 => b.s(K::If { arms: vec![(num(-1), level_body)], els: None, single_line: false }),
+            5 => {
+                let t = vec![b.print(vec![st("then")])];
+                b.s(K::If { arms: vec![(num(0), t)], els: Some(level_body), single_line: false })
+            }
+            6 => {
+                let e = vec![b.print(vec![st("case else")])];
+                b.s(K::Select { subject: num(1), cases: vec![(vec![CaseExpr::Range(num(0), num(2))], level_body)], els: Some(e) })
+            }
+            7 => {
+                let c1 = vec![b.print(vec![st("case 1")])];
+                b.s(K::Select { subject: num(5), cases: vec![(vec![CaseExpr::Simple(num(1))], c1)], els: Some(level_body) })
+            }
             0 => b.s(K::For { var: c.clone(), from: num(lo), to: num(hi), step: None, body: level_body, next_var: false }),
             1 => b.s(K::For { var: c.clone(), from: num(hi), to: num(lo), step: Some(num(-1)), body: level_body, next_var: true }),
             2 => {
@@ -229,7 +243,123 @@ pub fn escape_cases() -> Vec<(Vec<usize>, usize, bool)> {
             }
         }
     }
+    // nests with IF / ELSE / CASE / CASE ELSE blocks between the loops (the innermost level is a loop, which
+    // decides when the jump is taken, and at least one level is a block)
+    for depth in 2..=3usize {
+        let mut kinds_list: Vec<Vec<usize>> = vec![vec![]];
+        for level in 0..depth {
+            let mut next = vec![];
+            for k in &kinds_list {
+                let menu: &[usize] = if level + 1 == depth { &[0, 2] } else { &[0, 3, 4, 5, 6, 7] };
+                for kind in menu {
+                    let mut n = k.clone();
+                    n.push(*kind);
+                    next.push(n);
+                }
+            }
+            kinds_list = next;
+        }
+        for kinds in kinds_list {
+            if !kinds.iter().any(|k| *k >= 4) {
+                continue;
+            }
+            for target in 0..depth {
+                out.push((kinds.clone(), target, false));
+                if target == 0 {
+                    out.push((kinds.clone(), target, true));
+                }
+            }
+        }
+    }
     out
+}
+
+// ---------------------------------------------------------------------------
+// (2b) Jumps INTO a block: GOTO to a label inside an IF / ELSEIF / ELSE / CASE / CASE ELSE block or a
+// WHILE / DO body (not a FOR body, whose limit and step would be unset). The block is entered in the
+// middle, runs to its end and control continues as the block prescribes.
+// ---------------------------------------------------------------------------
+
+pub const INTO_KINDS: [&str; 12] = [
+    "IF block (condition true)",
+    "IF block (condition false)",
+    "ELSE block",
+    "ELSEIF block",
+    "CASE block (subject matches)",
+    "CASE block (subject does not match)",
+    "CASE ELSE block",
+    "WHILE body (condition true)",
+    "WHILE body (condition false)",
+    "DO WHILE body",
+    "DO .. LOOP UNTIL body",
+    "IF block inside a WHILE body",
+];
+
+pub fn jump_into_program(kind: usize, in_sub: bool, twice: bool) -> Prog {
+    let mut b = B::new();
+    let mut v = vec![b.print(vec![st("start")])];
+    if twice {
+        // the jump is taken on every round of an outer loop
+        v.push(b.assign(var("N%"), num(0)));
+        v.push(b.s(K::Label("Again".into())));
+        v.push(b.assign(var("N%"), bin(BinOp::Add, var("N%"), num(1))));
+    }
+    v.push(b.assign(var("C%"), num(if matches!(kind, 8) { 5 } else { 0 })));
+    v.push(b.s(K::Goto("Inside".into())));
+    let skipped = b.print(vec![st("skipped")]);
+    let label = b.s(K::Label("Inside".into()));
+    let bump = b.assign(var("C%"), bin(BinOp::Add, var("C%"), num(1)));
+    let inside = b.print(vec![st("inside"), var("C%")]);
+    let body = vec![skipped, label, bump, inside];
+    let other = |b: &mut B, t: &str| vec![b.print(vec![st(t)])];
+    let blk = match kind {
+        0 => b.s(K::If { arms: vec![(num(-1), body)], els: None, single_line: false }),
+        1 => {
+            let e = other(&mut b, "else");
+            b.s(K::If { arms: vec![(num(0), body)], els: Some(e), single_line: false })
+        }
+        2 => {
+            let t = other(&mut b, "then");
+            b.s(K::If { arms: vec![(num(-1), t)], els: Some(body), single_line: false })
+        }
+        3 => {
+            let t = other(&mut b, "then");
+            let e = other(&mut b, "else");
+            b.s(K::If { arms: vec![(num(-1), t), (num(-1), body)], els: Some(e), single_line: false })
+        }
+        4 | 5 => {
+            let c2 = other(&mut b, "case 2");
+            let e = other(&mut b, "case else");
+            b.s(K::Select { subject: num(if kind == 4 { 1 } else { 2 }), cases: vec![(vec![CaseExpr::Simple(num(1))], body), (vec![CaseExpr::Simple(num(2))], c2)], els: Some(e) })
+        }
+        6 => {
+            let c1 = other(&mut b, "case 1");
+            b.s(K::Select { subject: num(1), cases: vec![(vec![CaseExpr::Simple(num(1))], c1)], els: Some(body) })
+        }
+        7 | 8 => b.s(K::While(bin(BinOp::Lt, var("C%"), num(2)), body)),
+        9 => b.s(K::Do(DoKind::WhileTop, bin(BinOp::Lt, var("C%"), num(2)), body)),
+        10 => b.s(K::Do(DoKind::UntilBottom, bin(BinOp::Ge, var("C%"), num(2)), body)),
+        _ => {
+            let i = b.s(K::If { arms: vec![(bin(BinOp::Lt, var("C%"), num(9)), body)], els: None, single_line: false });
+            let tail = b.print(vec![st("round"), var("C%")]);
+            b.s(K::While(bin(BinOp::Lt, var("C%"), num(2)), vec![i, tail]))
+        }
+    };
+    v.push(blk);
+    v.push(b.print(vec![st("after"), var("C%")]));
+    if twice {
+        let again = b.s(K::Goto("Again".into()));
+        v.push(b.s(K::If { arms: vec![(bin(BinOp::Lt, var("N%"), num(3)), vec![again])], els: None, single_line: false }));
+        v.push(b.print(vec![st("end"), var("N%")]));
+    }
+    if in_sub {
+        let id = b.id();
+        let call = b.s(K::Call("Work".into(), vec![]));
+        let fin = b.print(vec![st("back")]);
+        Prog { main: vec![call, fin], subs: vec![SubDef { id, name: "Work".into(), is_function: false, params: vec![], body: v, is_static: false }], declare: true, ..Default::default() }
+    } else {
+        Prog { main: v, ..Default::default() }
+    }
 }
 
 // ---------------------------------------------------------------------------
